@@ -3,6 +3,7 @@ package main
 import (
 	"vharness/c03"
 	"vharness/c04"
+	"vharness/c05"
 	"vharness/c06"
 	"vharness/c09"
 	"vharness/c14"
@@ -22,6 +23,7 @@ func add(pkg string, m map[string]func(*vrt.Ctx)) {
 func init() {
 	add("c03", c03.Harnesses)
 	add("c04", c04.Harnesses)
+	add("c05", c05.Harnesses)
 	add("c06", c06.Harnesses)
 	add("c09", c09.Harnesses)
 	add("c14", c14.Harnesses)
